@@ -9,6 +9,8 @@
      close                                    -> close err=<e>
      patch <path> <offset> <hex>              -> patch ok|fail          (raw file edit, file must be closed)
      node <name> <type> <n>                   -> node err=<e>           (ADF_Create + Put_Dimension_Information, 1-D)
+     redim <name> <type> <n>                  -> node err=<e>           (Put_Dimension_Information on an existing node:
+                                                                         enlarging a written node adds a data chunk)
      wall <name> <hex>                        -> w err=<e>
      wblk <name> <b_start> <b_end> <hex>      -> w err=<e>
      wstr <name> <s0> <s1> <ss> <mn> <m0> <m1> <ms> <hex> -> w err=<e>
@@ -81,6 +83,10 @@ int main(void) {
         } else if (sscanf(line, "node %1023s %63s %lld", a, b, &v[0]) == 3) {
             double id; cgsize_t dims[1]; dims[0] = (cgsize_t)v[0];
             ADF_Create(root, a, &id, &err);
+            if (err == -1) ADF_Put_Dimension_Information(id, b, 1, dims, &err);
+            printf("node err=%d\n", err);
+        } else if (sscanf(line, "redim %1023s %63s %lld", a, b, &v[0]) == 3) {
+            double id = child(a, &err); cgsize_t dims[1]; dims[0] = (cgsize_t)v[0];
             if (err == -1) ADF_Put_Dimension_Information(id, b, 1, dims, &err);
             printf("node err=%d\n", err);
         } else if (sscanf(line, "wall %1023s %n", a, &off) >= 1) {
